@@ -199,46 +199,58 @@ def crowdLeast {α} (N : CrowdNum α) : LeastFn := fun front archive =>
 
 /-! ### NSGA3Indicator: niche counting
 
-`pairing[j] = (distance key, (j, closest reference))` is computed in floating point (normalised
-objective vectors, distances to the reference directions); the model takes the association
-`assoc j = (order key of the distance, reference index)` of the `na` archive points followed by
-the front points as a parameter and models the selection loop. -/
+`pairing[j] = (distance, (j, closest reference direction))` is computed in floating point (normalised
+objective vectors, perpendicular distances to the reference directions); the model takes the association
+`assoc j = (order key of the distance, reference index)` of the `na` archive points followed by the front
+points as a parameter and models the selection loop.
 
-structure NState where
-  pairing : List (Nat × Nat × Nat)   -- (key, first = point index, second = reference index)
-  rho : List Nat
-  k : Nat
+The C++ loop picks `index = min_element(rho)`, and if no remaining point is associated with it retires the
+direction (`rho[index] = n + 1`) and tries again; a direction without remaining points never gets one
+later, so the direction finally used is the first one of minimal niche count **among the directions that
+still have a remaining point**.  The model chooses that direction directly (structural recursion on the
+number of points still to select, no fuel); the equivalence with the retire-and-retry loop is tied by the
+exact correspondence. -/
 
-def minIndexNat : List Nat → Nat
-  | [] => 0
-  | v :: vs => (vs.foldl (fun (acc : Nat × Nat × Nat) x =>
-      if x < acc.2.1 then (acc.2.2, x, acc.2.2 + 1) else (acc.1, acc.2.1, acc.2.2 + 1)) (0, v, 1)).1
+/-- an entry of `pairing`: `(key, point index, reference index)` -/
+abbrev NPair := Nat × Nat × Nat
 
-/-- one iteration of `while(k < points.size() - K)` -/
-def nicheStep (n : Nat) (s : NState) : NState :=
-  let index := minIndexNat s.rho
-  -- closest associated point among positions k..n-1 (first minimal key)
-  let cand := ((List.range n).drop s.k).filter fun i => (s.pairing.getD i (0, 0, 0)).2.2 == index
-  match firstMinPair (cand.map fun i => (Int.ofNat (s.pairing.getD i (0, 0, 0)).1, i)) with
-  | none => { s with rho := s.rho.set index (n + 1) }
-  | some (_, c) =>
-    let a := s.pairing.getD s.k (0, 0, 0)
-    let b := s.pairing.getD c (0, 0, 0)
-    { pairing := (s.pairing.set s.k b).set c a, rho := s.rho.set index (s.rho.getD index 0 + 1), k := s.k + 1 }
+/-- first position of a minimal value among the positions accepted by `ok` (none: no position accepted) -/
+def firstMinOn (vals : List Nat) (ok : Nat → Bool) : Option Nat :=
+  (firstMinPair (((List.range vals.length).filter ok).map fun z => (Int.ofNat (vals.getD z 0), z))).map (·.2)
 
-def nicheLoop (n K : Nat) : Nat → NState → NState
-  | 0, s => s
-  | fuel + 1, s => if s.k < n - K then nicheLoop n K fuel (nicheStep n s) else s
+/-- position (in `rem`) of the closest remaining point associated with direction `index`: first minimal key -/
+def closestPos (rem : List NPair) (index : Nat) : Option Nat :=
+  (firstMinPair ((rem.zipIdx.filter fun e => e.1.2.2 == index).map fun e => (Int.ofNat e.1.1, e.2))).map (·.2)
 
-/-- `NSGA3Indicator::leastContributors` after the pairing has been computed: `assoc` lists
-`(key, reference)` for the `na` archive points followed by the front points, `nz` is the number
-of reference directions; returns the positions (in the front) of the unselected points.
-`fuel`: every iteration either selects a point or retires a reference direction. -/
+/-- `swap(pairing[k], pairing[c]); ++k` on the remaining part `pairing[k..]` (position `c` relative to `k`) -/
+def takeAt (rem : List NPair) (c : Nat) : List NPair :=
+  match rem with
+  | [] => []
+  | h :: t => if c == 0 then t else t.set (c - 1) h
+
+/-- `need` more points are selected from `rem` (niche counts `rho`); returns the unselected rest -/
+def nicheSelect : Nat → List Nat → List NPair → List NPair
+  | 0, _, rem => rem
+  | need + 1, rho, rem =>
+    match firstMinOn rho (fun z => rem.any fun e => e.2.2 == z) with
+    | none => rem                                   -- no remaining point (or association out of range)
+    | some index =>
+      match closestPos rem index with
+      | none => rem
+      | some c => nicheSelect need (rho.set index (rho.getD index 0 + 1)) (takeAt rem c)
+
+/-- `NSGA3Indicator::leastContributors` after the pairing has been computed: `assoc` lists `(key, reference)`
+for the `na` archive points followed by the front points, `nz` is the number of reference directions;
+returns the positions (in the front) of the `K` unselected points (order as left by the swaps). -/
 def nsga3Least (nz na : Nat) (assoc : List (Nat × Nat)) (K : Nat) : List Nat :=
   let n := assoc.length
-  let pairing := assoc.zipIdx.map fun (a, j) => (a.1, j, a.2)
+  let pairing : List NPair := assoc.zipIdx.map fun (a, j) => (a.1, j, a.2)
   let rho0 := (assoc.take na).foldl (fun rho a => rho.set a.2 (rho.getD a.2 0 + 1)) (List.replicate nz 0)
-  let s := nicheLoop n K (n + nz + 1) { pairing := pairing, rho := rho0, k := na }
-  (s.pairing.drop s.k).map fun p => p.2.1 - na
+  (nicheSelect (n - K - na) rho0 (pairing.drop na)).map fun p => p.2.1 - na
+
+/-- the indicator object seen by `IndicatorBasedSelection`; `assocOf front archive` is the floating-point
+association step (an arbitrary function in the theorems, observed from the real code in the tie) -/
+def nsga3Indicator (nz : Nat) (assocOf : List Nat → List Nat → List (Nat × Nat)) : Indicator :=
+  fun front archive K => nsga3Least nz archive.length (assocOf front archive) K
 
 end SharkVerif.MOO
